@@ -137,6 +137,23 @@ func CompareDecls(a, b, mode string) string
 // VFile declares a path of the virtual file system (os.Stat succeeds exactly for these).
 func VFile(path string)
 
+// ---- the CLI as a unit (main.go's Run closure with the real loaders and parser) ----
+
+// VFileData declares a file of the virtual file system with concrete content.
+func VFileData(path, content string)
+
+// CatchExit runs f and returns the status the program passed to os.Exit (-1: f returned).
+// At most one call per harness path.
+func CatchExit(f func()) int
+
+// Outcome: stdout, stderr and every file written (all under /tmp/zzvfs/out), canonically
+// ordered; Stdout/Stderr/WrittenFiles/WrittenFile give the parts.
+func Outcome() string
+func Stdout() string
+func Stderr() string
+func WrittenFiles() []string
+func WrittenFile(path string) string
+
 // RuneString returns a string of n symbolic runes (each ranging over all realizable Unicode
 // attribute classes); RuneCount / RuneAt inspect (possibly symbolic) strings rune-wise.
 func RuneString(n int) string
